@@ -1106,6 +1106,38 @@ func c06EarlyStore(p *packages.Package, fd *ast.FuncDecl, param types.Object, is
 		}
 		return true
 	})
+	// the variable a type switch binds in its array arm (switch v := value.(type) { case *ArrayValue: … v … })
+	// is the value itself, as an array
+	arrayBound := map[types.Object]bool{}
+	ast.Inspect(fd.Body, func(n ast.Node) bool {
+		ts, ok := n.(*ast.TypeSwitchStmt)
+		if !ok {
+			return true
+		}
+		as, ok := ts.Assign.(*ast.AssignStmt)
+		if !ok || len(as.Rhs) != 1 {
+			return true
+		}
+		ta, ok := ast.Unparen(as.Rhs[0]).(*ast.TypeAssertExpr)
+		if !ok || !isParam(ta.X) {
+			return true
+		}
+		for _, c := range ts.Body.List {
+			cc := c.(*ast.CaseClause)
+			for _, t := range cc.List {
+				if tv, ok := info.Types[t]; ok && tv.IsType() && isArr(tv.Type) {
+					if o := info.Implicits[cc]; o != nil {
+						arrayBound[o] = true
+					}
+				}
+			}
+		}
+		return true
+	})
+	isArrayBound := func(e ast.Expr) bool {
+		id, ok := ast.Unparen(e).(*ast.Ident)
+		return ok && arrayBound[info.Uses[id]]
+	}
 	h := &Hooks{Info: info}
 	h.Copy = func(s State) State { c := *s.(*st); return &c }
 	h.Join = func(a, b State) State { return &st{a.(*st).safe && b.(*st).safe} }
@@ -1188,6 +1220,10 @@ func c06EarlyStore(p *packages.Package, fd *ast.FuncDecl, param types.Object, is
 			}
 			if _, plain := ast.Unparen(l).(*ast.Ident); !plain && isParam(as.Rhs[i]) {
 				flag(x, as.Pos(), "assigned to "+exprStr(l))
+			}
+			if _, plain := ast.Unparen(l).(*ast.Ident); !plain && isArrayBound(as.Rhs[i]) && !bad.IsValid() {
+				// the array itself stored as it is, in the very arm that is there to copy it
+				bad, what = as.Pos(), "the array bound by the type switch is assigned to "+exprStr(l)+" as it is"
 			}
 		}
 		return s
